@@ -505,7 +505,8 @@ def r06_4(ctx) -> None:
             if sizep in txt and any(x.startswith("len(") and x.endswith(") * 8") for x in txt):
                 lab = "true" if isinstance(t.ast.ops[0], ast.NotEq) else "false"
                 var = [x for x in txt if x != sizep][0][4:-5]
-                rets_ok = all(norm(r.ast.value) == var for r in cfg.returns())
+                rets_ok = all(norm(r.ast.value) == var for r in cfg.returns()) and \
+                    all(resolve_all(eng, d, r.ast.value) == ["recipient.recipient_key.raw_value"] for r in cfg.returns())
                 if not can_reach_exit(cfg, succ_by_label(cfg, t, lab)) and all(cfg.dominates(t, r) for r in cfg.returns()) and rets_ok:
                     ok = True
     n += 1
